@@ -174,20 +174,23 @@ func cmdVerify(argv []string) {
 				continue // uninstantiated generic origin
 			}
 			before := len(ex.obls)
+			if t.con.RealFloat {
+				ex.assumed["float64 arithmetic in "+funcLabel(fn)+" is treated as exact real arithmetic (no rounding, NaN or Inf)"] = true
+			}
 			rep := ex.verifyFunction(fn, t.con)
 			res.Functions = append(res.Functions, rep)
 			if rep.Error != "" {
 				res.Errors = append(res.Errors, rep.Func+": "+rep.Error)
 			}
 			for _, o := range ex.obls[before:] {
-				asserts := append([]*Term{}, ex.facts[:o.NFacts]...)
+				asserts := append([]*Term{}, ex.relevantFacts(o)...)
 				asserts = append(asserts, ex.tagFacts...)
 				asserts = append(asserts, Not(o.Goal))
 				var gv []*Term
 				if o.Kind != "vacuity" {
 					gv = modelQueries(o.Inputs)
 				}
-				jobs = append(jobs, job{o, Script(asserts, gv)})
+				jobs = append(jobs, job{o, Script(asserts, gv, t.con.RealFloat)})
 			}
 		}
 	}
@@ -199,9 +202,9 @@ func cmdVerify(argv []string) {
 			res.Errors = append(res.Errors, rep.Func+": "+rep.Error)
 		}
 		for _, o := range ex.obls[before:] {
-			asserts := append([]*Term{}, ex.facts[:o.NFacts]...)
+			asserts := append([]*Term{}, ex.relevantFacts(o)...)
 			asserts = append(asserts, Not(o.Goal))
-			jobs = append(jobs, job{o, Script(asserts, nil)})
+			jobs = append(jobs, job{o, Script(asserts, nil, false)})
 		}
 	}
 	ex.globalObligations(res)
